@@ -121,6 +121,11 @@ impl Parser {
     }
 
     pub(super) fn primary(&mut self) -> Result<Expr> {
+        // advance() does not move past Eof and hands back the previous token again: an
+        // expression expected at the end of input must not re-parse that token
+        if self.is_at_end() {
+            return Err(self.error(CompileErrorKind::ExpectedExpression));
+        }
         let token = self.advance();
         let span = token.span;
         let token_kind = token.kind.clone();
